@@ -27,6 +27,15 @@ def rec(tag, value=None):
     return value
 
 
+def show(v):
+    """probe helper (repr() is short-circuited probabilistically by CrossHair: it carries a contract)"""
+    if v is None:
+        return 'None'
+    if callable(v):
+        return 'callable'
+    return str(v)
+
+
 class CustomExc(Exception):
     pass
 
@@ -43,6 +52,9 @@ def pick(table, idx):
         if idx == j:
             return table[j]
     raise IndexError(idx)
+
+
+_R5 = [0, 1, 2, 3, 4]
 
 
 def make_L(outs, vals, log):
@@ -79,6 +91,7 @@ class Plain:
 
 OBJ = [HasAttr(), HasItem(), {'k': 'dictitem'}, {'z': 1}, Plain(), ItemIndexError(), None, 3]
 KIND_N['obj'] = len(OBJ)
+KIND_N['maybe3'] = 3
 BOOL_KINDS = ('bool', 'lbool', 'maybe', 'llist')
 
 
@@ -114,6 +127,22 @@ def _mutate(name):
         ns = dict(src_fn.__globals__)
         exec(code, ns)
         zp.MacroProgram._make_content_node = ns['_make_content_node']
+    elif name == 'backup_none_sentinel':
+        # seeded: None instead of the private marker as "was unbound" sentinel (two cooperating sites)
+        import ast
+        from chameleon.codegen import template
+
+        def _enter_assignment(self, names):
+            for name in names:
+                yield from template("BACKUP = get(KEY)", BACKUP=cc.identifier("backup_%s" % name, id(names)),
+                                    KEY=ast.Constant(str(name)))
+
+        def _leave_assignment(self, names):
+            for name in names:
+                yield from template("if BACKUP is None: del econtext[KEY]\nelse:                 econtext[KEY] = BACKUP",
+                                    BACKUP=cc.identifier("backup_%s" % name, id(names)), KEY=ast.Constant(str(name)))
+        cc.Compiler._enter_assignment = _enter_assignment
+        cc.Compiler._leave_assignment = _leave_assignment
     elif name == 'pipe_catches_zerodiv':
         from chameleon import tales
         tales.TalesExpr.exceptions = tales.TalesExpr.exceptions + (ArithmeticError,)
@@ -203,6 +232,12 @@ def bind(ints, bools):
         if kind == 'obj':
             b[name] = pick(OBJ, ints[slot])
             continue
+        if kind == 'maybe3':         # unbound / bound to None / bound to 5
+            if ints[slot] == 1:
+                b[name] = None
+            elif ints[slot] == 2:
+                b[name] = 5
+            continue
         if kind == 'maybe':          # variable bound (to 5) or not bound at all
             if bools[slot]:
                 b[name] = 5
@@ -217,9 +252,9 @@ def bind(ints, bools):
             v = pick(CLS, ints[slot])
             b[name] = 5 if v is DEFAULT_MARKER else v
         elif kind == 'len':
-            b[name] = list(range(ints[slot]))
+            b[name] = list(range(pick(_R5, ints[slot])))       # concrete length per path
         elif kind == 'lenN':
-            n = ints[slot]
+            n = pick(_R5, ints[slot])
             b[name] = None if n == 4 else list(range(n))
         else:
             raise KeyError(kind)
@@ -232,6 +267,7 @@ def run_engine(bindings):
     outs = b.pop('__outs__', {})
     vals = b.pop('__vals__', {})
     b['rec'] = rec
+    b['show'] = show
     b['L'] = make_L(outs, vals, LOG)
     try:
         out = STATE['template'].render(**b)
@@ -258,7 +294,7 @@ def run_ref(bindings, **kw):
     outs = bindings.pop('__outs__', {})
     vals = bindings.pop('__vals__', {})
     ref = refsem.Ref(DEFAULT_MARKER, STATE['codes'],
-                     helpers={'rec': rrec, 'L': make_L(outs, vals, log)}, log=log, **kw)
+                     helpers={'rec': rrec, 'show': show, 'L': make_L(outs, vals, log)}, log=log, **kw)
     scope = refsem.RScope(bindings)
     out = []
     try:
